@@ -247,3 +247,8 @@ pub(super) fn validate_directory(
 
     Ok(())
 }
+
+// Verification hook (add-only, inert unless the crate is compiled by Kani).
+#[cfg(kani)]
+#[path = "/verif/kani/config_harness.rs"]
+mod verif_kani;
